@@ -10,7 +10,7 @@ using namespace Tins;
 using namespace mc;
 
 static int N = 5;            // unit segments
-static const int SEG = 3;    // bytes per segment
+static int SEG = 3;          // bytes per segment (3: every wrap offset inside a segment is hit; 1: one-byte holes right at the cumulative ACK)
 static int MAXBLK = 3;       // SACK blocks per ACK (TCP allows <= 4)
 
 // An event: segment `seg` arrives at the receiver; the receiver emits an ACK whose SACK option holds the
@@ -144,7 +144,7 @@ static std::vector<uint32_t> isns() {
 }
 
 static void run_cfg(bool flow, uint32_t isn, const std::string* rp = 0, std::string* rerr = 0) {
-    std::string ctx = std::string("level=") + (flow ? "flow" : "tracker") + " N=" + str(N) + " isn=" + str(isn);
+    std::string ctx = std::string("level=") + (flow ? "flow" : "tracker") + " N=" + str(N) + " seg=" + str(SEG) + " isn=" + str(isn);
     bool ok = true;
     if (!flow) {
         Explorer<S, Ev> ex;
@@ -204,10 +204,13 @@ static void run_cfg(bool flow, uint32_t isn, const std::string* rp = 0, std::str
 int main(int argc, char** argv) {
     for (int i = 1; i + 1 < argc; ++i) if (std::string(argv[i]) == "--tier" && std::string(argv[i + 1]) == "thorough") { N = 7; MAXBLK = 4; }
     if (getenv("C19_N")) N = atoi(getenv("C19_N"));
-    int nq = 2 * (6 + 5 * SEG + 4), nt = 2 * (6 + 7 * SEG + 4);
-    if (getenv("C19_N")) nq = nt = 2 * (6 + N * SEG + 4);
+    // jobs: [0, 2*n3) three-byte segments (tracker, then flow); [2*n3, 2*n3 + 2*n1) one-byte segments
+    int n3q = 6 + 5 * 3 + 4, n3t = 6 + 7 * 3 + 4, n1q = 6 + 5 + 4, n1t = 6 + 7 + 4;
+    int nq = 2 * n3q + 2 * n1q, nt = 2 * n3t + 2 * n1t;
     return run_main(argc, argv, nq, nt,
-        [](int job) {
+        [=](int job) {
+            int n3 = A.thorough() ? n3t : n3q;
+            if (job >= 2 * n3) { SEG = 1; job -= 2 * n3; } else SEG = 3;
             auto v = isns();
             bool flow = job >= (int)v.size();
             run_cfg(flow, v[job % v.size()]);
@@ -216,6 +219,7 @@ int main(int argc, char** argv) {
         [](const std::string& kase) -> int {
             auto kv = parse_kv(kase);
             N = atoi(kv["N"].c_str());
+            if (kv.count("seg")) SEG = atoi(kv["seg"].c_str());
             if (N > 5) MAXBLK = 4;
             std::string err, ops = kv["ops"];
             run_cfg(kv["level"] == "flow", (uint32_t)strtoul(kv["isn"].c_str(), 0, 10), &ops, &err);
